@@ -26,6 +26,29 @@ def convert_code_string(code: str, filename="<string>", configs: Configs | None 
     out = convert(ast_root, symtable_root, configs)
 
     if configs.unparser == "oneliner":
-        return expr_unparse(out)
+        text = expr_unparse(out)
     else:
-        return ast.unparse(out).replace("\n", "")
+        text = ast.unparse(out).replace("\n", "")
+        if not _is_expression(text, filename):
+            # ast.unparse does not always write something that can be parsed
+            # again (quotes or control characters in a format spec)
+            text = expr_unparse(out)
+
+    if not _is_expression(text, filename):
+        # never return something which is not a one-line expression
+        # (e.g. an identifier which is normalized to a keyword)
+        raise RuntimeError("Unable to write the converted script as an expression")
+    return text
+
+
+def _is_expression(text: str, filename: str) -> bool:
+    if "\n" in text or "\r" in text:
+        return False
+    try:
+        compile(text, filename, "eval", dont_inherit=True)
+    except (SyntaxError, ValueError):
+        return False
+    except RecursionError:
+        # too deep for the compiler to check it here
+        return True
+    return True
